@@ -60,7 +60,7 @@ def run_case(case):
     t = core.Tally()
     rng = gen.rng_of(case['sub'])
     name, prec, regime, degen = case['subject'], case['precision'], case['regime'], case['degen']
-    n = int(rng.choice([2, 3, 4, 7, 16, 50, 130, 400, 1000, 3000]))
+    n = gen.pick_n(rng, [2, 3, 4, 7, 16, 50, 130, 400, 1000, 3000])
     T = int(rng.integers(1, 13))
     ws = gen.WORD_SHAPES[int(rng.integers(len(gen.WORD_SHAPES)))]
     if case.get('wide'):
